@@ -34,6 +34,7 @@ LEVEL_TEXT += " Added clause: a pattern literal never fails to be written and me
 TECHNIQUE += '; declaration of defined names: the argument pairs of the model (_add_defined) and of the emitted ctx.define(...) through the real AST._define give the same defaults'
 LEVEL_TEXT += ' Added clause: a list name that receives nothing is [] on both back-ends.'
 TECHNIQUE += '; run-time names of generated rules are distinct (safe_name, RuleInfo.new and the @rule decorator interpreted)'
+TECHNIQUE += '; per-call state of a reused parser object: every exit of bound() restores the attributes whose per-call value is derived from their own previous value (C02.R13 = C10.R11, path-state execution)'
 LEVEL_TEXT += ' Added clause: two rules never share a run-time name in generated code.'
 LEVEL_NOTE = ('Trusted: repr() escapes every non-printable character; str.splitlines() breaks at \\n \\r \\v \\f \\x1c \\x1d \\x1e \\x85 '
               '\\u2028 \\u2029; str.expandtabs() rewrites TAB.')
